@@ -476,10 +476,10 @@ class LongPositionVector:
         return (
             (self.gn_addr.encode_to_int() << 32 * 4)
             | (self.tst.encode() << 32 * 3)
-            | (self.latitude << 32 * 2)
-            | (self.longitude << 32)
+            | ((self.latitude & 0xFFFFFFFF) << 32 * 2)
+            | ((self.longitude & 0xFFFFFFFF) << 32)
             | (self.pai << 31)
-            | (self.s << 16)
+            | ((self.s & 0x7FFF) << 16)
             | self.h
         ).to_bytes(24, byteorder="big")
 
@@ -495,10 +495,10 @@ class LongPositionVector:
         return (
             (self.gn_addr.encode_to_int() << 32 * 4)
             | (self.tst.encode() << 32 * 3)
-            | (self.latitude << 32 * 2)
-            | (self.longitude << 32)
+            | ((self.latitude & 0xFFFFFFFF) << 32 * 2)
+            | ((self.longitude & 0xFFFFFFFF) << 32)
             | (int(self.pai) << 31)
-            | (self.s << 16)
+            | ((self.s & 0x7FFF) << 16)
             | self.h
         )
 
@@ -517,10 +517,17 @@ class LongPositionVector:
         data_as_int = int.from_bytes(data[0:24], byteorder="big")
         gn_addr = GNAddress.decode((data_as_int >> 32 * 4).to_bytes(8, byteorder="big"))
         tst = TST.decode(data_as_int >> 32 * 3)
+        # Latitude and longitude are 32 bit two's complement, speed is a 15 bit signed integer
         latitude = (data_as_int >> 32 * 2) & 0xFFFFFFFF
+        if latitude & 0x80000000:
+            latitude -= 0x100000000
         longitude = (data_as_int >> 32) & 0xFFFFFFFF
+        if longitude & 0x80000000:
+            longitude -= 0x100000000
         pai = bool((data_as_int >> 31) & 0x1)
         s = (data_as_int >> 16) & 0x7FFF
+        if s & 0x4000:
+            s -= 0x8000
         h = data_as_int & 0xFFFF
         return cls(
             gn_addr=gn_addr,
@@ -714,8 +721,8 @@ class ShortPositionVector:
         return (
             (self.gn_addr.encode_to_int() << 32 * 3)
             | (self.tst.encode() << 32 * 2)
-            | (self.latitude << 32 * 1)
-            | self.longitude
+            | ((self.latitude & 0xFFFFFFFF) << 32 * 1)
+            | (self.longitude & 0xFFFFFFFF)
         ).to_bytes(20, byteorder="big")
 
     def encode_to_int(self) -> int:
@@ -730,8 +737,8 @@ class ShortPositionVector:
         return (
             (self.gn_addr.encode_to_int() << 32 * 3)
             | (self.tst.encode() << 32 * 2)
-            | (self.latitude << 32 * 1)
-            | self.longitude
+            | ((self.latitude & 0xFFFFFFFF) << 32 * 1)
+            | (self.longitude & 0xFFFFFFFF)
         )
 
     @classmethod
@@ -748,7 +755,11 @@ class ShortPositionVector:
         gn_addr = GNAddress.decode((data_int >> 32 * 3).to_bytes(8, byteorder="big"))
         tst = TST.decode(data_int >> 32 * 2)
         latitude = (data_int >> 32 * 1) & 0xFFFFFFFF
+        if latitude & 0x80000000:
+            latitude -= 0x100000000
         longitude = data_int & 0xFFFFFFFF
+        if longitude & 0x80000000:
+            longitude -= 0x100000000
         return cls(gn_addr=gn_addr, tst=tst, latitude=latitude, longitude=longitude)
 
     def __eq__(self, __o: object) -> bool:
